@@ -267,6 +267,23 @@ def value_oracle(args):
                 return f"schmidt_spectrum at bond {o.sites}: got {got[:4]}, dense {want[:4]}"
         elif abs(complex(got) - want) > 1e-8:
             return f"{o.gate.name} at {o.sites}: got {complex(got):.8f}, dense value {want:.8f} (L={L}, listing order {[oo.gate.name for oo, _ in olist]})"
+    # history on one state object: sampling it again (as every backend does that keeps evolving the object it has just sampled) gives the
+    # same values, and the object still represents the same state in the same form
+    res2 = np.zeros((len(olist), 1), dtype=object)
+    try:
+        mps.evaluate_observables(p, res2, 0)
+    except Exception as e:  # noqa: BLE001
+        return f"the second evaluate_observables on the same state raised {type(e).__name__}: {e}"
+    for row, o in enumerate(p.sorted_observables):
+        a, b = np.asarray(res[row, 0], dtype=complex).ravel(), np.asarray(res2[row, 0], dtype=complex).ravel()
+        if next(k for oo, k in olist if oo is o) == "Diag":
+            continue
+        ok = a.shape == b.shape and np.all((np.isnan(a) & np.isnan(b)) | (np.abs(np.nan_to_num(a) - np.nan_to_num(b)) <= 1e-8))
+        if not ok:
+            return (f"{o.gate.name} at {o.sites}: the SECOND evaluation of the same state object gives {np.round(b[:3], 8)}, the first one (equal to the dense value) "
+                    f"gave {np.round(a[:3], 8)}: sampling moved the state it sampled")
+    if dense.up_to_phase(dense.mps_dense(mps), v) > 1e-9:
+        return "evaluate_observables changed the vector the state represents"
     # norm, overlap, bitstring probability
     if abs(mps.norm() - np.vdot(v, v).real) > 1e-9:
         return "norm differs from the dense norm"
